@@ -48,6 +48,12 @@ def gen_case(rng, allow=None, n_max=6, deviations=False):
             break
     case = {'config': gen_config(rng), 'seq': seq, 'seg_seed': rng.randrange(1 << 30),
             'seg_mode': rng.choice(['whole', 'bytes', 'random', 'random', 'cut'])}
+    if rng.random() < 0.1 and not any(r['classes']['framing'] in ('overrun', 'overrun0', 'nobody+cl', 'head+cl') for r in seq):
+        # the client option --ignore-length (Content-Length not trusted; such bodies end with the connection): every
+        # response is followed by the end of its connection
+        case['config']['ignore_length'] = True
+        for r in seq:
+            r['then'] = 'eof'
     if rng.random() < 0.2:
         case['ftp'] = [{'url': 'ftp://f.test/dir%d/' % i + ('' if listing else 'file%d.bin' % i), 'listing': listing,
                         'data': list(b'-rw-r--r-- 1 u g 5 Jan  1 12:00 a.txt\r\n' if listing else
@@ -178,8 +184,13 @@ def run_case(case, keep_dir=None):
                     digest = refwarc.b32sha1(msg[body_start:])[5:]
                     visits.visits[(url, digest)] = '<urn:uuid:00000000-0000-0000-0000-%012d>' % serial
 
+            client_kwargs = None
+            if cfg.get('ignore_length'):
+                import functools
+                from wpull.protocol.http.stream import Stream
+                client_kwargs = {'stream_factory': functools.partial(Stream, ignore_length=True)}
             outcomes, peer, net = httpdrive.run_sequence(
-                responses, recorder_setup=lambda client: recorder.listen_to_http_client(client))
+                responses, recorder_setup=lambda client: recorder.listen_to_http_client(client), client_kwargs=client_kwargs)
             if case.get('ftp') and rnd_index == len(rounds) - 1:
                 obs['ftp'] = run_ftp_sessions(recorder, case['ftp'])
             recorder.close()
